@@ -97,6 +97,23 @@ theorem gram_is_physical (d : ℕ) (ρ : ℕ → ℕ → K) (h : IsGram d ρ) :
       ∑ i ∈ range d, ∑ j ∈ range d, star (v i) * ρ i j * v j = ∑ c ∈ range m, w c * star (w c)) :=
   ⟨fun i hi j hj => gram_hermitian d ρ h i j hi hj, fun v => gram_quadratic_form d ρ h v⟩
 
+
+/-- **States of a system coupled to an explicit (finite) quantum environment are physical.**  The
+    joint state of environment ⊗ system (joint index `e*d + i`, dimension `E*d`) evolves by any list
+    of Kraus-form steps (joint unitaries, system propagators ⊗ 1, channels on either factor); the
+    reported reduced state — what a process tensor built from that environment, closed with its caps,
+    gives at EVERY step — is of Gram form (positive semidefinite) with the initial trace. -/
+theorem ancilla_states_physical (E d : ℕ) (Ps : List (ℕ → ℕ → K))
+    (hPs : ∀ P ∈ Ps, IsKrausStep (E * d) P) (n : ℕ) (v : ℕ → K) (ρ : ℕ → ℕ → K)
+    (hρ : IsGram (E * d) ρ)
+    (hv : ∀ a, a < E * d → ∀ b, b < E * d → v (a * (E * d) + b) = ρ a b) :
+    ∃ ρ' : ℕ → ℕ → K,
+      (∀ a, a < E * d → ∀ b, b < E * d → runVec (E * d) (Ps.take n) v (a * (E * d) + b) = ρ' a b) ∧
+      IsGram d (ptraceEnv E d ρ') ∧
+      ∑ i ∈ range d, ptraceEnv E d ρ' i i = ∑ a ∈ range (E * d), ρ a a := by
+  obtain ⟨ρ', hg, hrun, htr⟩ := kraus_prefix_physical (E * d) Ps hPs n v ρ hρ hv
+  exact ⟨ρ', hrun, ptraceEnv_gram E d ρ' hg, (ptraceEnv_trace E d ρ').trans htr⟩
+
 /-! non-vacuity: amplitude damping on a qubit with rational Kraus operators
     `K₀ = diag(1, 3/5)`, `K₁ = (4/5)|0⟩⟨1|` is a Kraus step, and `|+⟩⟨+|·2 = [[1,1],[1,1]]` is Gram -/
 
